@@ -1380,7 +1380,7 @@ def drive(rep: Report, rng: Rng, tier: str, deadline: float, with_model: bool, m
             bad_sigs[sig] = bad_sigs.get(sig, 0) + 1
             rep.count(f"failed:{sig}")
             if bad_sigs[sig] <= 2:
-                rep.violation(sig, res.what, {"payload": pl, "relation": res.relation})
+                rep.violation(sig, res.what, {"kind": "multi-case", "payload": pl, "relation": res.relation})
         if with_model:
             pending.append((pl, res))
             if len(pending) >= 300:
@@ -1433,7 +1433,7 @@ def witnesses(rep: Report):
             rep.case(nontrivial_key=("witness", sha(pl)))
             rep.count("witness:known" if expect_fail else "witness:regression")
             if not res.ok:
-                rep.violation(signature(res), res.what, {"payload": pl, "relation": res.relation})
+                rep.violation(signature(res), res.what, {"kind": "multi-case", "payload": pl, "relation": res.relation})
             elif expect_fail:
                 rep.notes.append(f"witness no longer fails: {pl['fam']}:{pl.get('fn', pl.get('cls'))} (stale finding?)")
     correspondence(rep, pending)
@@ -1456,7 +1456,35 @@ def search(rep: Report):
     rep.streams["search"] = {"cases": n, "per_family": stats}
 
 
+def _nothing(reason):
+    raise ValueError(f"nothing to replay: {reason}")
+
+
 def replay(payload) -> bool:
-    pl = payload.get("replay", payload)
+    """True iff the property holds on the recorded case.  The case IS its JSON payload `{fam, …}` (every tensor with dtype and
+    shape, python scalars / None / lists as they are); `evaluate` — the function the sweep, the witnesses and search() call —
+    re-runs the real multi call, the real single-slice calls and the independence relation on it."""
+    if not isinstance(payload, dict):
+        _nothing("payload is not a dict")
+    if "replay" in payload or "property" in payload:
+        if payload.get("kind", "failing-input") != "failing-input":
+            _nothing(f"payload kind {payload.get('kind')!r} carries no concrete input")
+        pl = payload.get("replay")
+    else:
+        pl = payload
+    if not isinstance(pl, dict) or not pl:
+        _nothing("the payload carries no replay dict")
+    if pl.get("kind", "multi-case") != "multi-case" and "fam" not in pl:
+        _nothing(f"replay kind {pl.get('kind')!r} is not a multi-slice case")
     pl = pl.get("payload", pl)
-    return evaluate(pl).ok
+    if not isinstance(pl, dict) or pl.get("fam") not in FAMS:
+        _nothing(f"no case family in the payload (fam = {pl.get('fam') if isinstance(pl, dict) else None!r})")
+    try:
+        res = evaluate(pl)
+    except (KeyError, TypeError, AttributeError, IndexError) as e:
+        _nothing(f"the recorded {pl['fam']} case is incomplete or malformed ({e!r})")
+    if res.ok and "single-raises" in res.notes:
+        _nothing("a single-slice call raises on the recorded input: the multi call has nothing to be compared with")
+    if not res.ok:
+        print(f"replay: {signature(res)}: {res.what}"[:600])
+    return res.ok
